@@ -494,8 +494,9 @@ class IkeSa(object):
 
         # select the proposal and generate a response Payload SA
         self.chosen_proposal = self._select_best_sa_proposal(self.configuration.proposal, payload_sa)
-        # if this is a rekey, hence spi is not empty, send ours
+        # if this is a rekey, hence spi is not empty, send ours (the peer's is the one of the proposal we chose, not of the first one)
         if self.chosen_proposal.spi:
+            self.peer_spi = self.chosen_proposal.spi
             self.chosen_proposal.spi = self.my_spi
         response_payload_sa = PayloadSA([self.chosen_proposal])
 
